@@ -79,7 +79,7 @@ def defuse_xml(fp: IOType, rewind: bool = True) -> IOType:
         for event, node in pulldom.parse(fp, parser):
             if event == pulldom.START_ELEMENT:
                 break
-    except (SAXParseException, LookupError):
+    except (SAXParseException, LookupError, ValueError):
         pass  # the purpose is to defuse not to check xml source syntax (or encoding)
     except OSError as err:
         raise XMLResourceOSError(err)
